@@ -82,3 +82,14 @@ package ratelimiting
 //@   ensures [C09.new.order] (opts.InitialDelay != nil && opts.MaxDelay != nil && *opts.MaxDelay < *opts.InitialDelay) ==> (result == nil && result1 != nil)
 //@   ensures [C09.new.pending] (opts.MaxPendingEvents != nil && *opts.MaxPendingEvents <= 0) ==> (result == nil && result1 != nil)
 //@   ensures [C09.new.ok] result1 == nil ==> (result != nil && fresh(result))
+
+// Close: the deferred function waits for the WaitGroup while holding c.lock. The goroutines it waits for (Run's
+// loop inside handleInputCh / handleTimerFired) need c.lock: a wait-order violation, asserted at the blocking
+// call. It FAILS on the current code: registered as a known finding (see /verif/known_findings.json) because the
+// lock is there to order Run's wg.Add against Wait and cannot simply be dropped.
+//@ func (*coalescing).Close$1
+//@   tags C09
+//@   requires c != nil
+//@   at before call Wait#0 assert [C09.close.nowaitunderlock] !held(c.lock)
+//@   replay template coalescingclose
+//@   replay val dummy = 0
